@@ -185,13 +185,31 @@ def rsa_case(ctx, case):
 def login_secrets_case(ctx, case):
     """K complete encrypted logins: secrets fresh (E5) - needs servers.py"""
     from vlib import servers
+    import random
+    from vlib import vnet
     K = case['k']
     seen = []
+    env = case.get('env')
+    if env:
+        ctx.label('logins_env_' + env)
     for i in range(K):
         ctx.ev()
-        r = servers.run_encrypted_login(case.get('version', 757),
-                                        bits=case.get('bits', 1024),
-                                        token=bytes([i % 256, 1, 2, 3]))
+        # env: what an application may have done to the process before each
+        # login - 'seeded': it seeds the global PRNG with the same value
+        # (reproducible bots, test fixtures); 'frozen_clock': the wall clock
+        # reads the same instant.  "Fresh random bytes per login" holds
+        # regardless
+        state = random.getstate()
+        try:
+            if env == 'seeded':
+                random.seed(20260927)
+            with vnet.wall_clock('frozen' if env == 'frozen_clock'
+                                 else None):
+                r = servers.run_encrypted_login(
+                    case.get('version', 757), bits=case.get('bits', 1024),
+                    token=bytes([i % 256, 1, 2, 3]))
+        finally:
+            random.setstate(state)
         if r.get('error'):
             ctx.fail('login_secrets', 'E5-login-failed', case, r['error'])
             return
@@ -429,6 +447,9 @@ def t_installed(ctx, n):
 
 def t_logins(ctx, k, version, bits):
     login_secrets_case(ctx, {'k': k, 'version': version, 'bits': bits})
+    for env in ('seeded', 'frozen_clock'):
+        login_secrets_case(ctx, {'k': max(3, k // 4), 'version': version,
+                                 'bits': bits, 'env': env})
     ctx.sample({'k': k, 'version': version, 'bits': bits}, 'logins')
 
 
